@@ -1473,6 +1473,12 @@ def main():
     from vf.sandbox import run_extra as _rx9
     _rx9(run, "vf.checks.c12:run_large_sidefiles", [{"seed": seed(), "idx": _i} for _i in range(40 if tier() == "thorough" else 6)], cpu_budget=300)
     run.require("large_sidefile_entries")
+    # a key left out of a dictionary means the constructor's documented default, in the object's own units (vf/history.py)
+    from vf.sandbox import run_extra as _rxd
+    from vf.common import seed as _sdd, tier as _trd
+    _wd = ['node', 'edge', 'grid', 'species', 'reaction', 'script']
+    _rxd(run, "vf.history:h_dict_defaults", [{"seed": _sdd(), "idx": _i, "which": _wd[_i % len(_wd)]} for _i in range(1200 if _trd() == "thorough" else 120)],
+         cpu_budget=60, kind_prefix="history: ")
     return run.finish()
 
 
